@@ -149,6 +149,8 @@ PROPS = {
                      "MantraDex.C15Sys.second_leg_receiver_defaults_to_pm"],
         "extra_modules": ["MantraDex.Properties.C15Sys"],
         "streams": {"auth": (1, 1), "inst": (1500, 60000), "pm_hist": (80, 2000), "fm_hist": (80, 2000)},
+        # C15's last clause (position management by the owner, the pool manager the only delegate) is decided by the C08 / C14 position monitors too
+        "also_tags": ["C08-foreign-change", "C08-created-for-other", "C14-locks-for-other", "C08-unknown-identifier"],
         "what": "ownership moves only when the pending owner accepts before expiry or the owner renounces; transfer/renounce need the owner; a renounced "
                 "contract rejects every ownership action; on all four contracts config/ownership messages need the owner (resp. pending owner) and no "
                 "funds, non-privileged messages never change config or ownership; farm expansion needs the farm owner, farm closing the farm owner or "
